@@ -8,6 +8,21 @@ ALL = [f'C{i:02d}' for i in range(1, 21)]
 
 # property -> (level text, level note, technique, design section)
 CHECKS = {
+    'C02': (
+        'Lean 4 theorems over any commutative ring, any register shape (qudits) and any axes: the unnormalised collapse onto a measurement '
+        'outcome is the action of the projector |a><a| on the measured axes (C02_proj_is_operator); it commutes with every operation on '
+        'disjoint qudits and with every other measurement (C02_measure_commutes_with_disjoint_op, C02_projections_commute: a terminal '
+        'measurement can be sampled at once from the final state, a deferred one gives the same branches); outcomes are orthogonal and '
+        'complete (C02_proj_orthogonal, C02_outcomes_complete: probabilities sum to one); repeated keys append records. The reference '
+        'semantics Spec.Circuit.run (Born rule with collapse, confusion map before invert mask, repeated keys, KeyCondition / '
+        'BitMaskKeyCondition feed-forward, qudits) is compared with the *exact* joint record distribution of Simulator (split on/off), '
+        'DensityMatrixSimulator and CliffordSimulator obtained by enumerating every branch of their random draws through a scripted PRNG.',
+        'Trusted: Lean kernel; harness + scripted PRNG + driver (T2 on generated circuits, tolerance 2e-6); RandomState.choice(p) picks k '
+        'with probability p[k]; the invert mask on a qudit digit >= 2 follows the code (documentation speaks of qubits only); the Lean '
+        'interpreter itself is a specification (its array projection is not yet proved equal to projFn).',
+        'Lean 4 proof (projector algebra of the reference semantics) + exact branch-enumeration correspondence',
+        'DESIGN.md §3 C02',
+    ),
     'C04': (
         'Lean 4 theorems over any commutative ring, any register shape and any axis position: the in-place slicing kernels of '
         'XPowGate / YPowGate / ZPowGate / HPowGate._apply_unitary_ (two-slice updates incl. the sequence one-=zero; one*=-0.5; zero-=one; '
